@@ -63,7 +63,9 @@ func c11Scenarios(tier string) []*Scenario {
 		}
 	}
 	gen(nil)
-	loggers := []string{"none", "proc", "unified", "proc-flush", "proc-num"}
+	// "proc-ready": a ready_log_line that the first tagged line matches - the line that makes the process ready
+	// is a line of its output like any other
+	loggers := []string{"none", "proc", "unified", "proc-flush", "proc-num", "proc-ready"}
 	for _, seq := range seqs {
 		for _, errMode := range []string{"none", "line", "nonl"} {
 			for _, restarts := range []int{0, 1} {
@@ -76,9 +78,12 @@ func c11Scenarios(tier string) []*Scenario {
 						if errMode == "nonl" && len(seq) > 1 {
 							continue
 						}
-						if lg != "none" && restarts == 1 && li > 1 {
+						if lg != "none" && restarts == 1 && li > 1 && lg != "proc-ready" {
 							continue
 						}
+					}
+					if lg == "proc-ready" && (len(seq) > 2 || errMode == "nonl") {
+						continue
 					}
 					if lg == "proc-num" && (len(seq) > 1 || errMode != "none") {
 						continue // the documented {PC_REPLICA_NUM} placeholder in the file name of a single replica
@@ -222,6 +227,8 @@ func c11Scenario(seq []int, errMode string, restarts int, lg string) *Scenario {
 		pc.Lines = append(pc.Lines, "log_location: \"@DIR@/a.log\"", "log_configuration:", "  flush_each_line: true")
 	case "proc-num":
 		pc.Lines = append(pc.Lines, "log_location: \"@DIR@/a.{PC_REPLICA_NUM}.log\"")
+	case "proc-ready":
+		pc.Lines = append(pc.Lines, "log_location: \"@DIR@/a.log\"", "ready_log_line: \"o\"")
 	case "unified":
 		global = append(global, "log_location: \"@DIR@/all.log\"")
 	}
@@ -269,7 +276,7 @@ func c11Scenario(seq []int, errMode string, restarts int, lg string) *Scenario {
 		K:          1,
 		TickBudget: 1 + restarts,
 	}
-	if lg == "proc" || lg == "proc-flush" {
+	if lg == "proc" || lg == "proc-flush" || lg == "proc-ready" {
 		// "in that file once the process has ended": what the file holds at the moment the process is reported
 		// ended (somebody may read it right then) is remembered and compared with its final content
 		sc.OnState = func(w *World, name, status string) {
